@@ -448,7 +448,14 @@ func genC20(r *Rng) (string, []PQuery, []string) {
 	a, b, d := c(), c(), c()
 	n := 2 + r.Intn(4)
 	for i := 0; i < n; i++ {
-		switch r.Intn(11) {
+		switch r.Intn(14) {
+		case 11:
+			// a placeholder passed to function calls, repeated across calls
+			add("func-arg-repeat", ":many", fmt.Sprintf("SELECT id FROM items WHERE lower(%s::text) = lower($1) OR upper(%s::text) = upper($1)", a.Name, b.Name))
+		case 12:
+			add("func-arg-mixed", ":many", fmt.Sprintf("SELECT id FROM items WHERE id = $1 AND (strpos(%s::text, $2) > 0 OR strpos(%s::text, $2) > 0)", a.Name, b.Name))
+		case 13:
+			add("func-arg-once", ":many", fmt.Sprintf("SELECT id, lower(%s::text) AS low FROM items WHERE lower(%s::text) = lower($1) AND id > $2", a.Name, b.Name))
 		case 0:
 			add("plain", ":one", "SELECT * FROM items WHERE id = $1")
 		case 1:
